@@ -267,6 +267,27 @@ func TestVerifC05(t *testing.T) {
 	}
 	vrt.Part(r, "full", gen(full, 1, depthFull), run)
 	vrt.Part(r, "reduced", gen(small, depthFull+1, depthSmall), run)
+	// DNSSEC-OK queries: the hop-to-hop filtering of the upstream's OPT record
+	// (and of its ECS option) must not depend on the DO bit, nor on whether
+	// the query carried an OPT record at all.
+	var dnssec []ecsQuery
+	for _, n := range []string{"dep.", "s0.", "odd."} {
+		for _, o := range []string{"", "10.1.3.0/24", "0.0.0.0/0", "2001:db8:1:2::/64"} {
+			for _, c := range []string{c05Clients[0], c05Clients[1], c05Clients[3]} {
+				for _, do := range []bool{true, false} {
+					for _, edns := range []bool{true, false} {
+						if do && !edns {
+							continue
+						}
+						dnssec = append(dnssec, ecsQuery{Client: c, Name: n, QType: dns.TypeA, QClass: dns.ClassINET, ECS: o, DO: do, EDNS: edns})
+					}
+				}
+			}
+		}
+	}
+	r.Bound("depth_dnssec", 2)
+	r.Bound("events_dnssec", len(dnssec))
+	vrt.Part(r, "dnssec", gen(dnssec, 1, 2), run)
 	// The GeoIP database fails (for every address, for the addresses of ECS
 	// options only, for the clients' own addresses only): the lookups are
 	// advisory, so the statement holds as it stands - an opt-out is still an
